@@ -22,7 +22,9 @@ RULE = (
     "shared Config object and parsing them with keyword overrides, parsing a Tract as a dry run before parsing it for good - interleaved with probe evaluations "
     "from a pool of 100+ probe calls (descriptions, tracts, TRS constructions and decompositions, find_twprge, with settings). "
     "Every probe result is compared with the result of the same probe in a fresh interpreter (subprocesses, 6 probes each) "
-    "started under the MasterConfig defaults in force at that moment. Non-trivial: a probe evaluated after at least one "
+    "started under the MasterConfig defaults in force at that moment. A second sub-check parses any text of the C03 space under any settings through any entry "
+    "point, with follow-up calls (dry runs with ocr_scrub / segment / copy_all, re-parses, filters, sorts, exports), and then requires a fixed set of canary "
+    "parses to give what they gave before the first case ran in the process. Non-trivial: a probe evaluated after at least one "
     "cache-affecting and one MasterConfig-affecting step. Distinct = distinct history."
 )
 ASSUMPTIONS = [
@@ -398,11 +400,59 @@ def classes(c):
     return [f"op={k}" for k in sorted(_last.get("kinds", ()))] + (["nontrivial"] if _last.get("nt") else [])
 
 
+# any parse of any text under any settings, then the canaries -------------------------------------------------------------
+from vlib import parsing as _parsing, configs as _configs, canary as _canary  # noqa: E402
+
+ANY_CASE = st.fixed_dictionaries({**_parsing.CASE_FIELDS,
+                                  "follow": st.lists(st.sampled_from(["dry_run", "parse", "parse_tracts", "parse_tracts_kw", "tract_dry_run", "copy_all", "preprocess"]), max_size=3)})
+
+
+def oracle_any(c):
+    """Whatever was parsed, and however: a fixed set of unrelated parses gives afterwards what it gave before anything ran."""
+    _canary.arm()
+    try:
+        d, tracts = _parsing.make_plss(c, parse_qq=True)
+        for step in c["follow"]:
+            if step == "dry_run":
+                d.parse(commit=False, ocr_scrub=True, segment=True)
+            elif step == "parse":
+                d.parse()
+            elif step == "parse_tracts":
+                d.parse_tracts()
+            elif step == "parse_tracts_kw":
+                d.parse_tracts(clean_qq=True, qq_depth_min=1, break_halves=True)
+            elif step == "tract_dry_run":
+                for t in d.tracts:
+                    t.parse(commit=False, clean_qq=True)
+            elif step == "copy_all":
+                d.parse(layout="copy_all", commit=False)
+            elif step == "preprocess":
+                d.preprocess(ocr_scrub=True, commit=False)
+        d.tracts.filter_errors(sec=False)
+        d.tracts.custom_sort("s.rev,t,r")
+        d.tracts_to_dict("trs", "lots", "qqs")
+    except Exception as exc:  # whether a parse may raise is C03's question; what it leaves behind is this property's
+        from vlib.core import exception_failure
+        if exception_failure(exc, "any") is None:
+            raise
+    ch = _canary.changed()
+    _last["nt"] = True
+    _last["kinds"] = set(c["follow"])
+    if ch:
+        return [Failure("any_parse_left_state_behind", f"after parsing {c['text']['text']!r:.200} [{_configs.to_text(c['cfg'], c['style'])}] via {c['entry']} + {c['follow']}: {ch}",
+                        **_parsing.render(c))]
+    return []
+
+
 SUBS = [
     Sub("histories", oracle, strategy=lambda tier: CASE, nontrivial=lambda c: bool(_last.get("nt")), classes=classes, render=lambda c: c,
         n={"quick": 1500, "thorough": 12000}, shards={"quick": 8, "thorough": 16},
         essential=("op=probe", "op=set_master", "op=clear_cache", "op=cache_off", "op=prewarm", "op=mutate_trs_dict", "op=mutate_outputs",
                    "op=under_defaults", "op=create_deferred", "op=parse_deferred", "op=use_shared_config", "op=probe_shared_config", "op=tract_dry_run_first", "nontrivial")),
+    Sub("after_any_parse", oracle_any, strategy=lambda tier: ANY_CASE, nontrivial=lambda c: bool(c["cfg"]) or bool(c["follow"]),
+        classes=lambda c: _parsing.text_classes(c) + [f"follow={f}" for f in c["follow"]], render=lambda c: dict(_parsing.render(c), follow=c["follow"]),
+        n={"quick": 700, "thorough": 8000}, shards={"quick": 6, "thorough": 16}, text_keys=("text",),
+        essential=("gen=soup", "gen=damaged", "cfg=segment", "cfg=ocr_scrub", "follow=dry_run", "follow=copy_all")),
 ]
 
 if __name__ == "__main__" and len(sys.argv) > 1 and sys.argv[1] == "--reference":
